@@ -236,14 +236,21 @@ def float_tol(op, valspec, n):
     s = math.fsum(vals) if vals else 0.0
     mx = max(vals) if vals else 0.0
     eps = cmp.EPS.get(dtype, cmp.EPS["float64"])
-    if op in ("var", "std"):
+    if op == "var":
         return 16.0 * (n + 2) * eps * mx * mx + 1e-300
+    if op == "std":  # |sqrt(a) - sqrt(b)| <= sqrt(|a - b|)
+        return math.sqrt(16.0 * (n + 2) * eps * mx * mx) + 1e-300
     return 4.0 * (n + 2) * eps * s + 1e-300
 
 
-def same_value(a, b, tol):
+def same_value(a, b, tol, nullzero=False):
+    """nullzero: a null on one side matches a value within tol of zero on the other (var/std from sums of squares
+    turn a tiny negative variance into NaN; both are inside the stated rounding bound)."""
     if cmp.is_null(a) or cmp.is_null(b):
-        return cmp.is_null(a) and cmp.is_null(b)
+        if cmp.is_null(a) and cmp.is_null(b):
+            return True
+        other = b if cmp.is_null(a) else a
+        return bool(nullzero) and isinstance(other, (int, float)) and abs(other) <= tol
     if isinstance(a, (bool, str)) or isinstance(b, (bool, str)) or tol == 0:
         return a == b
     try:
@@ -252,7 +259,7 @@ def same_value(a, b, tol):
         return a == b
 
 
-def diff_red(a, b, tol=0.0, what=""):
+def diff_red(a, b, tol=0.0, what="", nullzero=False):
     """compare two 'red' results as label->value maps; returns description of first difference or None."""
     if (a.raised is None) != (b.raised is None):
         return f"{what}: one side raised: {a!r} vs {b!r}"
@@ -263,7 +270,7 @@ def diff_red(a, b, tol=0.0, what=""):
             return f"{what}: column sets differ"
         for c in a.vals:
             ma, mb = dict(zip(a.labels, a.vals[c])), dict(zip(b.labels, b.vals[c]))
-            d = _diff_maps(ma, mb, tol, f"{what}[{c}]")
+            d = _diff_maps(ma, mb, tol, f"{what}[{c}]", nullzero)
             if d:
                 return d
         return None
@@ -271,23 +278,23 @@ def diff_red(a, b, tol=0.0, what=""):
         ma, mb = a.as_map(), b.as_map()
     except ValueError as e:
         return f"{what}: {e}"
-    return _diff_maps(ma, mb, tol, what)
+    return _diff_maps(ma, mb, tol, what, nullzero)
 
 
-def _diff_maps(ma, mb, tol, what):
+def _diff_maps(ma, mb, tol, what, nullzero=False):
     if set(ma) != set(mb):
         return f"{what}: labels differ: only-left={sorted(set(ma) - set(mb), key=repr)[:3]} only-right={sorted(set(mb) - set(ma), key=repr)[:3]}"
     for l in ma:
-        if not same_value(ma[l], mb[l], tol):
+        if not same_value(ma[l], mb[l], tol, nullzero):
             return f"{what}: label {l!r}: {ma[l]!r} vs {mb[l]!r}"
     return None
 
 
-def diff_rows(a_vals, b_vals, tol=0.0, what="", rows=None):
+def diff_rows(a_vals, b_vals, tol=0.0, what="", rows=None, nullzero=False):
     if len(a_vals) != len(b_vals):
         return f"{what}: lengths differ {len(a_vals)} vs {len(b_vals)}"
     for i, (x, y) in enumerate(zip(a_vals, b_vals)):
-        if not same_value(x, y, tol):
+        if not same_value(x, y, tol, nullzero):
             r = i if rows is None else rows[i]
             return f"{what}: row {r}: {x!r} vs {y!r}"
     return None
